@@ -36,7 +36,10 @@ META = {
                   'attached_applied (on a node which starts, each attachment names a module of the node of the kind asked for '
                   'and the attribute of the instance is that module - mandatory or optional property, used during '
                   'initialisation or not), bad_attachment_reported (a name no module has, or a module of the wrong kind: the '
-                  'module is among the failing modules reported and the node does not start).  The hypotheses of '
+                  'module is among the failing modules reported and the node does not start), attachments_accepted (every '
+                  'module created, every given attachment good, no module attached to itself transitively => no module fails '
+                  'to initialise, the node starts), init_fuel_suffices (the depth bound of the model of SecNode.get_module is '
+                  'never reached).  The hypotheses of '
                   'the theorems (WellFormed class description, well-written Mod arguments) are checked by Lean on every case '
                   '(wellFormedB_sound, writtenOkB_sound).  The model is tied to frappy/modulebase.py, params.py, properties.py, '
                   'secnode.py, config.py by a correspondence run over generated (class, cfg) pairs through the real SecNode / '
